@@ -18,7 +18,7 @@ RULE = ('cases: random worlds (3-6 locations, metric and non-metric asymmetric i
         'Concrete i / Last. non-trivial = distinct cases whose tour has >= 1 activity and whose alternatives are not all infeasible '
         'or all feasible.')
 TRUSTED = ['the Python simulation oracle in tools/props/corelib.py (cross-checked against the Coq `feasible` on every alternative of every case)',
-           'routing is time-independent (SimpleTransportCost); SimpleActivityCost; SingleDimLoad with a defined vehicle capacity; no reload intervals']
+           'routing is time-independent (SimpleTransportCost); SimpleActivityCost; parent stream: SingleDimLoad with a defined vehicle capacity, no reload intervals (sub-stream c06_multitrip: reload intervals, MultiDimLoad)']
 ASSUMPTIONS = ['integer-valued data below 2^40: every f64 operation of the evaluator is exact',
                'Float::MAX is represented by INF = 2^60 in the model; the `== Float::MAX` branch of update_states is the same function as the min-formula under float absorption']
 
@@ -254,9 +254,20 @@ MANIFEST_TEXT = ('Machine-checked proof (Coq) over an executable model of the in
                  'position always yields a tour the independent simulation finds feasible (single activities; multi-jobs via a verified '
                  'step certificate), and for one place / one window at inner legs the O(1) tests are exact (complete). The model is tied to '
                  '/repo on every run: the real eval_job_insertion_in_route and the model are run on the same generated tours/jobs and must '
-                 'agree on verdict, code, stopped flag, index, place, window and cost; the simulation oracle is applied to the implementation output.')
+                 'agree on verdict, code, stopped flag, index, place, window and cost; the simulation oracle is applied to the implementation output. '
+                 'Sub-stream c06_limits (Model/Limits.v): the tour-limit (max distance / max duration), tour-size, skills and strict-lock '
+                 'constraints are inside the model: an accepted insertion keeps the tour within all of them for the extended step-by-step '
+                 'simulation (any matrix, open/closed; whole single-job evaluation; any history of applied insertions); the distance, size and '
+                 'skills tests are exact, the duration test is sound and exact when nothing behind the next activity waits (otherwise '
+                 'conservative - witness theorem); the real tour_limits.rs / travel_info.rs / skills.rs / locked_jobs.rs run against the model on '
+                 'every check and the oracle re-simulates the really applied tour. Sub-stream c06_multitrip (Model/CapacityMT.v): route '
+                 'intervals, reload marker rules, per-interval load states and MultiDimLoad are modelled generically in the load type; proved: '
+                 'cached per-interval states are exact, an accepted insertion keeps every reload interval within capacity in every dimension '
+                 '(static demand and shipments carried across reloads), exactness for static demand, the d-dimensional test is the conjunction '
+                 'of one-dimensional tests; tied to /repo on every run (intervals, cached states, verdict at every leg, evaluator results, '
+                 'accept_solution_state) with an independent per-interval simulation as oracle; finding C06-F4.')
 MANIFEST_NOTE = ('Trusted: Coq kernel+vm_compute; harness/generators; python simulation oracle (cross-checked against the Coq spec each run). '
-                 'Modelled not verified: time-dependent routing, reserved times, reload intervals, MultiDimLoad, offset time spans; '
+                 'Modelled not verified: time-dependent routing, reserved times, offset time spans, shared reload resources, recharge (reload intervals and MultiDimLoad are in the sub-stream c06_multitrip, limits / skills / strict locks in c06_limits; the parent stream is single-interval SingleDimLoad); '
                  'eval_multi search itself is not modelled (its result is checked as a certificate). Completeness is proved per position; '
                  'known incompleteness classes are listed in known_findings.json.')
-MANIFEST_TECHNIQUE = 'Coq proof (soundness/completeness of O(1) insertion tests vs simulation) + vm_compute differential correspondence'
+MANIFEST_TECHNIQUE = 'Coq proof (soundness/completeness of O(1) insertion tests incl. limits, skills, locks, reload intervals, multi-dimensional loads vs simulation) + vm_compute differential correspondence (three harness binaries)'
